@@ -235,6 +235,20 @@ func configs(tier string) (cfgs []Cfg, libs []string) {
 		n++
 		cfgs = append(cfgs, Cfg{Kind: "imports", Name: "with_builtin:" + p, Imports: []string{p}, Shape: "with_builtin", PkgPath: fmt.Sprintf("cfg/i%04d", n)})
 	}
+	// two different packages with the same last path component (and the same Go package name), imported from two files
+	for _, p := range paths {
+		for _, q := range paths {
+			lp, lq := p[strings.LastIndex(p, "/")+1:], q[strings.LastIndex(q, "/")+1:]
+			if p >= q || lp != lq || strings.Count(p, "/") != 2 || strings.Count(q, "/") != 2 {
+				continue
+			}
+			if tier == "quick" && lp != "a" && lp != "a.b" {
+				continue
+			}
+			n++
+			cfgs = append(cfgs, Cfg{Kind: "imports", Name: "same_base:" + p + "," + q, Imports: []string{p, q}, Shape: "two", PkgPath: fmt.Sprintf("cfg/i%04d", n)})
+		}
+	}
 	// clients whose own path needs mapping (output file placement)
 	for _, c1 := range comps {
 		for _, c2 := range comps {
@@ -396,6 +410,7 @@ func main() {
 	// packages expected to be refused run one per invocation (a refusal may take the process down); the rest in batches
 	var batch []Cfg
 	results := map[string][2]string{}
+	jointFailure := ""
 	flush := func() {
 		if len(batch) == 0 {
 			return
@@ -407,11 +422,20 @@ func main() {
 		code, out := runGoose(*goose, root, outDir, pk)
 		if code != 0 && code != 1 {
 			// a crash in a batch: rerun one by one to attribute it
+			attributed := false
+			defer func() {
+				if !attributed {
+					jointFailure = fmt.Sprintf("goose exited with status %d when %d packages were translated in one invocation, but every one of them translates alone: %s", code, len(pk), firstLines(out, 8))
+				}
+			}()
 			for _, c := range batch {
 				code1, out1 := runGoose(*goose, root, outDir, []string{"./" + c.PkgPath})
 				k, m := check(c, outDir, false, code1, out1)
 				if code1 != 0 && code1 != 1 && k == "" {
 					k, m = "crash", "goose exited with status "+fmt.Sprint(code1)+": "+firstLines(out1, 5)
+				}
+				if code1 != 0 && code1 != 1 {
+					attributed = true
 				}
 				results[c.PkgPath] = [2]string{k, m}
 			}
@@ -447,6 +471,9 @@ func main() {
 			acc.Violate(ev.Violation{Key: fmt.Sprintf("C08/%s/%s/%s", c.Kind, r[0], c.Name), Msg: fmt.Sprintf("%s (package %s/%s): %s", c.Name, mod, c.PkgPath, r[1]), Replay: c})
 		}
 	}
+	if jointFailure != "" {
+		acc.Violate(ev.Violation{Key: "C08/joint-invocation-fails", Msg: jointFailure, Replay: cfgs[0]})
+	}
 	acc.Sample(map[string]any{"config": cfgs[len(cfgs)/2]}, 1)
 	acc.Sample(map[string]any{"config": cfgs[3]}, 2)
 	os.RemoveAll(work)
@@ -461,7 +488,7 @@ func main() {
 	}
 	os.Exit(acc.Done(ev.Finish{
 		Prop: "C08", Tier: *tier, Level: "exploration", Start: start,
-		Rule:        "generated module (local stub modules through replace directives give arbitrary import paths offline): (a) every client with one route and every pair of routes to the FFI packages {machine/disk, primitive/disk, machine/async_disk, primitive/async_disk, gokv/grove_ffi (stub built on disk)} x {direct, one helper package, two helper packages}, plus no FFI; (b) every library path of <=2 (thorough <=3) components over {a, a-b, a.b, a_b, trusted_x, x-y.z} imported alone, together with a second path from another file in both orders, twice from two files (adjacent, and with another import in between), next to a builtin import, and 36 client package paths over the same alphabet; translated by the real goose binary; reference: FFI = the set of FFIs reachable without passing through an FFI (one -> its prelude, none -> Section header + End footer, two -> refused, no file), one sorted de-duplicated Require per non-builtin import with '/'->'.', '.' and '-'->'_', trusted_* through the trusted namespace, output path derived the same way",
+		Rule:        "generated module (local stub modules through replace directives give arbitrary import paths offline): (a) every client with one route and every pair of routes to the FFI packages {machine/disk, primitive/disk, machine/async_disk, primitive/async_disk, gokv/grove_ffi (stub built on disk)} x {direct, one helper package, two helper packages}, plus no FFI; (b) every library path of <=2 (thorough <=3) components over {a, a-b, a.b, a_b, trusted_x, x-y.z} imported alone, together with a second path from another file in both orders, twice from two files (adjacent, and with another import in between), next to a builtin import, two different packages with the same last component from two files, and 36 client package paths over the same alphabet; translated by the real goose binary; reference: FFI = the set of FFIs reachable without passing through an FFI (one -> its prelude, none -> Section header + End footer, two -> refused, no file), one sorted de-duplicated Require per non-builtin import with '/'->'.', '.' and '-'->'_', trusted_* through the trusted namespace, output path derived the same way; the packages are translated in batches of up to 300 per invocation (each file is judged against its own package's import graph: a package without FFI translated next to FFI clients keeps its Section header), a batch that fails although every member translates alone is a violation",
 		Assumptions: []string{"refusal of a two-FFI package is judged only as 'no file and non-zero exit' (the form of the refusal belongs to C07)"},
 		Extra:       map[string]any{"distinct_nontrivial": len(acc.Sets["nontrivial"])},
 	}))
